@@ -1,6 +1,6 @@
 (* C17 Response attributes truthfully report what was settled. *)
 From ATS Require Import Prelude Dec DecFacts Uuid Semver Types Contract Tactics Spec Inv InvAsk InstProofs AskProofs
-  BidFacts InvBid InvStep ExitProofs Ledger AdmitProofs Frame Reach Shadow.
+  BidFacts InvBid InvStep ExitProofs Ledger AdmitProofs Frame Reach Shadow Numeral Display.
 
 (* every successful execute response starts with the action attribute naming the kind of request *)
 Theorem C17_action : forall e st sender funds m st' r,
@@ -107,3 +107,15 @@ Proof.
   apply InstProofs.instantiate_stored in H as [-> _]. reflexivity.
 Qed.
 Print Assumptions C17_shadow_never_diverges.
+
+(* "the execution price (as a number)": the price attribute is the decimal library's Display of the parsed execution
+   price; Display is a right inverse of the parser (Display.display_parse), so reading the attribute back gives exactly
+   the executed price -- same sign, mantissa and number of decimals -- for every price string the contract accepts *)
+Theorem C17_printed_price_reads_back : forall price xp,
+  dec_parse price = Some xp -> (d_neg xp = true -> d_mant xp <> 0) -> dec_parse (dec_to_string xp) = Some xp.
+Proof.
+  intros price xp Hp Hz. pose proof (dec_parse_wf _ _ Hp) as [Hs Hm]. rewrite display_parse by assumption.
+  destruct xp as [n m s]. cbn [d_neg d_mant d_scale] in *. f_equal. f_equal.
+  destruct n; [|reflexivity]. destruct (N.eqb_spec m 0) as [->|_]; [exfalso; apply Hz; reflexivity|reflexivity].
+Qed.
+Print Assumptions C17_printed_price_reads_back.
